@@ -52,7 +52,7 @@ import (
 )
 
 type fetchStats struct {
-	Cases, Ops, Events, DistinctNontrivial         int
+	Cases, Ops, Events, DistinctNontrivial, DupSources int
 	Kinds, LenClass, Conc, Faults, Modes, Outcomes map[string]int
 	Sizes                                          map[string]int
 	MaxInFlight                                    map[string]int
@@ -588,6 +588,11 @@ func runFetchOp(w *fworld, r *rand.Rand, st *fetchStats, op int, all []iface.IPF
 				}
 			}
 		}
+		// heads gathered from several replicas overlap: now and then one entry is supplied twice
+		if len(srcEntries) > 0 && r.Intn(4) == 0 {
+			srcEntries = append(srcEntries, srcEntries[r.Intn(len(srcEntries))])
+			st.DupSources++
+		}
 		for _, e := range srcEntries {
 			addRoot(e.GetHash())
 		}
@@ -646,6 +651,9 @@ func runFetchOp(w *fworld, r *rand.Rand, st *fetchStats, op int, all []iface.IPF
 	var lp *int
 	if n >= 0 {
 		v := n
+		lp = &v
+	} else if r.Intn(3) == 0 {
+		v := -1 - r.Intn(3)*r.Intn(50) // "no limit" given explicitly: -1 or any other negative length
 		lp = &v
 	}
 	fmt.Fprintf(out, "F %d kind=%s n=%d conc=%d mode=%s timeout=%d sort=%s src=%d k=%d roots=%s excl=%s faults=%s\n",
